@@ -3,13 +3,19 @@
    mechanism in every order of every loop.  One initial state per chunk (so that
    all TLC workers are used); the first step picks the instance.              *)
 EXTENDS CompileSets
-CONSTANTS Size, Only     \* Size "s" | "l"; Only = {} (all chunks) or a set of family names
+CONSTANTS Size, Only, Positions     \* Size "s" | "l"; Only = {} (all chunks) or a set of family names
 VARIABLE chunk
 MCChunks == {c \in Chunks(Size) : Only = {} \/ c[1] \in Only}
 MCInit == /\ chunk \in MCChunks /\ phase = "pick" /\ inst = Base /\ todo = {} /\ order = << >> /\ pos = 1
           /\ trees = << >> /\ out = [verdict |-> "none", schema |-> {}]
+\* Spelling does not enter meaning or mechanism, and the positions of typedef / identity / feature references only
+\* rename or re-kind single nodes: the model explores one spelling and, for those kinds, the leaf position; grouping
+\* positions (which decide where nodes land and which sibling names clash) are all explored.
+MCRelevant(J) == /\ J.spell = "u" /\ (J.fam \in {"typedef", "identity", "feature"} => J.rpos = "leaf")
+                 /\ \A d \in J.defs : d.pos \in Positions
+                 /\ (Len(J.shape) > 4 /\ SubSeq(J.shape, 1, 4) = "twin" => J.rpos \in {"container", "leaf"})   \* twins: first position pair
 Pick == /\ phase = "pick" /\ UNCHANGED chunk
-        /\ \E I \in {J \in Chunk(chunk) : J.spell = "u"} : PStart(I)     \* (spelling does not enter meaning or mechanism)
+        /\ \E I \in {J \in Chunk(chunk) : MCRelevant(J)} : PStart(I)
 MCNext == Pick \/ (phase # "pick" /\ PNext /\ UNCHANGED chunk) \/ (Done /\ UNCHANGED <<pvars, chunk>>)
 MCSpec == MCInit /\ [][MCNext]_<<pvars, chunk>>
 MCProgress == [][phase # "pick" => Measure' < Measure]_<<pvars, chunk>>
